@@ -38,6 +38,10 @@ import CLModel.Proofs.C02XDtd
 import CLModel.Proofs.C02XComment
 import CLModel.Proofs.C02XGarbage
 import CLModel.Proofs.C02XPo
+import CLModel.Proofs.C02PIniLic
+import CLModel.Proofs.C02PPo
+import CLModel.Proofs.C02PProps
+import CLModel.Proofs.C02PDemo
 namespace C02
 open P Rx Gen.Pat
 
@@ -162,17 +166,28 @@ theorem license_standalone_po (s : Array Nat) (off : Nat) (st : St) (hoff : off 
     poGetNext s off = { kind := .comment, full := off, s := off, e := st.pos } :=
   license_standalone_base poCfg s off st hoff hm hl
 
-/-- ini (the section test comes first in `IniParser.getNext`; a comment does not start with `[`) -/
-theorem license_standalone_ini (s : Array Nat) (off : Nat) (st : St) (hoff : off < 2) (hsec : s[off]? ≠ some 91)
+/-- ini: the section test comes first in `IniParser.getNext`, but a comment never starts with `[` — where `reComment`
+    matches, the text reads `;` or `#` (`C02P.ini_comment_head`) — so the base rule applies unchanged.  (Round 4: the
+    former extra hypothesis "the text at the offset is not `[`" is now proved for every comment.) -/
+theorem license_standalone_ini (s : Array Nat) (off : Nat) (st : St) (hoff : off < 2)
     (hm : matchAt s IniParser_reComment off = some st)
     (hl : isInfix licenseWord (commentVal (.offset Gen.Tables.offsetCommentDefault) (slice s off st.pos)) = true) :
     iniGetNext s off = { kind := .comment, full := off, s := off, e := st.pos } := by
+  have hsec := C02P.ini_comment_not_section s off st hm
   have : matchAt s IniParser_reSection off = none := by
     simp only [matchAt, IniParser_reSection, m_seq, m_lit]
     simp [hsec]
   unfold iniGetNext
   simp only [this]
   exact license_standalone_base iniCfg s off st hoff hm hl
+
+/-- where an ini comment matches, the text starts with `;` or `#` -/
+theorem ini_comment_starts_with_marker (s : Array Nat) (off : Nat) (st : St)
+    (hm : matchAt s IniParser_reComment off = some st) : s[off]? = some 59 ∨ s[off]? = some 35 :=
+  C02P.ini_comment_head s off st hm
+
+-- non-vacuity: "; License⏎[S]⏎" — the comment at offset 0 is standalone, the section follows
+example : iniGetNext #[59, 32, 76, 105, 99, 101, 110, 115, 101, 10, 91, 83, 93, 10] 0 = { kind := .comment, full := 0, s := 0, e := 9 } := by decide
 
 /-- dtd, with or without a byte-order mark: `off` is where `DTDParser.getNext` really starts -/
 theorem license_standalone_dtd (s : Array Nat) (off0 : Nat) (st : St)
@@ -480,5 +495,364 @@ example : (poGetNext #[109, 115, 103, 105, 100, 32, 34, 97, 34, 10, 109, 115, 10
 example : (poGetNext #[109, 115, 103, 105, 100, 32, 34, 97, 34, 98, 34, 10, 109, 115, 103, 115, 116, 114, 32, 34, 120, 34, 10] 0).kind = .junk := by decide
 -- a backslash in V: the spans are as printed, but the value is the unescaped text (`x\ny` -> x, newline, y)
 example : (entView .po #[109, 115, 103, 105, 100, 32, 34, 97, 34, 10, 109, 115, 103, 115, 116, 114, 32, 34, 120, 92, 110, 121, 34, 10] (poGetNext #[109, 115, 103, 105, 100, 32, 34, 97, 34, 10, 109, 115, 103, 115, 116, 114, 32, 34, 120, 92, 110, 121, 34, 10] 0)).map (·.val) = some (some [120, 10, 121]) := by decide
+
+/-! ### (12) PO: whole files (round 4) -/
+
+/-- PO, a whole file: take ANY list of blocks, each either
+    * a RECORD: optional `#…` comment lines (any text without newline after the `#`: `# `, `#.`, `#:`, `#,` …), optionally
+      white-space with at most ONE newline between the comment block and the record, optional `msgctxt` string list,
+      `msgid` string list, `msgstr` string list — every string list is one or more quoted fragments, each preceded by
+      arbitrary white-space (so `msgid "a"`, `msgid ""⏎"a"⏎"b"`, `msgid"a" "b"` are all covered), every fragment a list of
+      tokens `reListItem` accepts (plain characters, the escapes `\\ \t \r \n \"`) — arbitrary white-space between the
+      lists, and arbitrary white-space after the record (the "gap"; the header record `msgid ""` is a record like any
+      other — the parser does not treat it specially); or
+    * a FREE comment: comment lines followed by white-space with at least TWO newlines.
+    The License rule must not fire on an attached comment of the FIRST record (`NoLicense 0`: all other blocks start at an
+    offset ≥ 2, where the rule does not exist; a free comment is standalone with or without the rule).  Then
+    `PoParser.walk` terminates and yields EXACTLY (`C02P.poExpEntries`), per record: the entity — full span from the first
+    comment line, span from `msgctxt`/`msgid` to the closing quote of the last `msgstr` fragment, key span = start … end
+    of the last `msgid` fragment (it INCLUDES the msgctxt list: `id_start = cursor = m.start()`), value span = `msgstr` …
+    end, pre-comment span = the comment lines — followed by one white-space entry for a non-empty gap; per free comment the
+    comment entry and the white-space entry.  The entities evaluate (`C02P.PoRec.view`) to: key = the one-pass unescape
+    (`po_unescape_is_spec`) of the msgid fragments concatenated, context = the same for msgctxt (or `None`), raw value =
+    `msgstr` + its printed fragments, value = the unescaped msgstr fragments — or the msgid when that is empty —, attached
+    comment = the comment lines verbatim (`#` and newline included).  There is no junk.
+    FULL statement (not proved): a comment separated from its record by white-space is attached iff that white-space has
+    at most one newline — proved; what remains outside the class are obsolete `#~` records (they are comments for the
+    parser), a final comment without newline, and `\r\n` INSIDE comment lines. -/
+theorem roundtrip_po_partial (bs : List C02P.PoBlock) (h : ∀ b ∈ bs, b.Good')
+    (hlic : ∀ r, bs.head? = some (.record r) → r.NoLicense 0) :
+    walk .po (C02P.printPo bs).toArray = .done (C02P.poExpEntries bs) ∧
+      entitiesOf .po (C02P.printPo bs).toArray (C02P.poExpEntries bs) = C02P.poExpViews bs ∧
+      junkOf (C02P.printPo bs).toArray (C02P.poExpEntries bs) = [] :=
+  C02P.walk_po_printed bs h hlic
+
+/-- the pieces, one record at any offset: `getNext`, `createEntity` and the view -/
+theorem po_record_at (s : Array Nat) (off : Nat) (r : C02P.PoRec) (rest : List Nat) (hg : r.Good) (hlic : r.NoLicense off)
+    (hfo : C02P.PoFollow rest) (h : s.toList.drop off = r.print ++ rest) :
+    poGetNext s off = r.entity off ∧ poCreate s (r.start off) = some (r.parts (r.start off)) ∧
+      entView .po s (r.entity off) = r.view := by
+  refine ⟨C02P.po_entity_rec s off r rest hg hlic hfo h, ?_, C02P.po_view_rec s off r rest hg hfo h⟩
+  have h1 : C02P.At s off (C02P.printComment r.comment ++ (r.cgap ++ (r.body ++ (r.gap ++ rest)))) := by
+    simpa [C02P.At, C02P.PoRec.print] using h
+  exact C02P.po_create_at s _ r rest hg hfo h1.app.app
+
+-- non-vacuity: `# c⏎⏎⏎#. x⏎msgctxt "c"⏎msgid ""⏎"a\n"⏎msgstr "b"⏎` (free comment; attached `#.` comment, msgctxt, a msgid
+-- of two fragments with an escape)
+example : (∀ b ∈ C02P.poDemo, b.Good') ∧ ∀ r, C02P.poDemo.head? = some (.record r) → r.NoLicense 0 :=
+  ⟨C02P.poDemo_good, C02P.poDemo_lic⟩
+example : C02P.printPo C02P.poDemo =
+    [35, 32, 99, 10, 10, 10, 35, 46, 32, 120, 10, 109, 115, 103, 99, 116, 120, 116, 32, 34, 99, 34, 10, 109, 115, 103, 105, 100, 32,
+     34, 34, 10, 34, 97, 92, 110, 34, 10, 109, 115, 103, 115, 116, 114, 32, 34, 98, 34, 10] := by decide
+example : C02P.poExpEntries C02P.poDemo =
+    [{ kind := .comment, full := 0, s := 0, e := 4 },
+     { kind := .whitespace, full := 4, s := 4, e := 6, ks := 4, ke := 6, vs := 4, ve := 6 },
+     { kind := .entity, full := 6, s := 11, e := 48, ks := 11, ke := 37, vs := 38, ve := 48, pc := some (6, 11) },
+     { kind := .whitespace, full := 48, s := 48, e := 49, ks := 48, ke := 49, vs := 48, ve := 49 }] := by decide
+example : C02P.poExpViews C02P.poDemo =
+    [some { key := [97, 10], ctxt := some (some [99]), raw := [109, 115, 103, 115, 116, 114, 32, 34, 98, 34], val := some [98],
+            comment := some [35, 46, 32, 120, 10] }] := by decide
+-- NEGATION WITNESSES (what the code does at the excluded points):
+-- `NoLicense` for the first record: "# License⏎msgid "a"⏎msgstr "b"⏎" — the comment is standalone, not attached
+example : poGetNext #[35, 32, 76, 105, 99, 101, 110, 115, 101, 10, 109, 115, 103, 105, 100, 32, 34, 97, 34, 10, 109, 115, 103, 115, 116, 114, 32, 34, 98, 34, 10] 0 =
+    { kind := .comment, full := 0, s := 0, e := 10 } := by decide
+-- at most one newline between comment and record (`cgap_nl`): with TWO the comment is standalone ("# c⏎⏎⏎msgid …"); with ONE
+-- blank line it is still attached (the comment regex eats its own newline) — that layout is inside the class
+example : (poGetNext #[35, 32, 99, 10, 10, 10, 109, 115, 103, 105, 100, 32, 34, 97, 34, 10, 109, 115, 103, 115, 116, 114, 32, 34, 98, 34, 10] 0).kind = .comment ∧
+    (poGetNext #[35, 32, 99, 10, 10, 109, 115, 103, 105, 100, 32, 34, 97, 34, 10, 109, 115, 103, 115, 116, 114, 32, 34, 98, 34, 10] 0).pc = some (0, 4) := by
+  decide
+-- a token outside the grammar (`\q`): no list item, the record is junk
+example : (poGetNext #[109, 115, 103, 105, 100, 32, 34, 92, 113, 34, 10, 109, 115, 103, 115, 116, 114, 32, 34, 98, 34, 10] 0).kind = .junk := by decide
+-- `PoFollow`: see the continuation-fragment witness of section (11)
+
+/-! ### (13) properties: the full record grammar (round 4) -/
+
+/-- properties, a whole file: take ANY list of blocks, each either
+    * a RECORD (`C02P.PRecord`): an optional comment block of one or more lines, each `#` or `!` followed by any text
+      without a line boundary; if there is a comment, a newline and possibly indentation (no second newline) before the key;
+      the key (first character not `# ! = :` or white-space, further characters not `= :`, newline, blank, tab); the
+      separator — blanks/tabs, `=` or `:`, blanks/tabs —; the value: zero or more CONTINUED physical lines (any text
+      without newline that ends in an ODD number of backslashes) and a last line (ending in an EVEN number of backslashes,
+      not ending in white-space), the first line not starting with a blank — so `\n \uXXXX \\ \:` escapes and
+      `\`-newline-indentation continuations are all inside —; then the "gap": a newline and any further white-space (blank
+      lines, indentation of the next record); or
+    * a FREE comment block: comment lines followed by white-space that starts with a newline and has at least two.
+    The License rule must not fire on an attached comment of the first record (the rule exists at offset 0 only).  Then
+    `PropertiesParser.walk` terminates and yields EXACTLY (`C02P.propsExpEntries`), per record, the entity and one
+    white-space entry for the gap, per free comment the comment entry and the white-space entry.  The SPANS of the entity
+    are exact: key span = the key, VALUE SPAN = EXACTLY THE PRINTED RAW VALUE (all physical lines, backslashes and
+    indentation included: the parity loop over `_escapedEnd` and the `_trailingWS` search are proved), pre-comment span =
+    the comment block without its final newline.  The entities evaluate (`C02P.PRecord.view`) to the key, the raw value,
+    value = `propsUnescapeSpec raw` (`props_unescape_is_spec`), and the comment lines without their markers.  No junk.
+    FULL statement (not proved): keys containing blanks/tabs (legal for the code), a last record without final newline,
+    a value whose last physical line is blank, CRLF. -/
+theorem roundtrip_properties_full_partial (bs : List C02P.PBlock) (h : ∀ b ∈ bs, b.Good')
+    (hlic : ∀ r, bs.head? = some (.record r) → r.NoLicense 0) :
+    walk .properties (C02P.printPropsB bs).toArray = .done (C02P.propsExpEntries bs) ∧
+      entitiesOf .properties (C02P.printPropsB bs).toArray (C02P.propsExpEntries bs) = C02P.propsExpViews bs ∧
+      junkOf (C02P.printPropsB bs).toArray (C02P.propsExpEntries bs) = [] :=
+  C02P.walk_props_blocks bs h hlic
+
+/-- THE SPAN SIDE, one record at any offset: `getNext` returns the entity whose value span is exactly the printed raw
+    value (`vstart … vstart + |value|`), whatever escapes and continuation lines it contains -/
+theorem props_record_span (s : Array Nat) (off : Nat) (r : C02P.PRecord) (rest : List Nat) (hg : r.Good)
+    (hlic : r.NoLicense off) (h : s.toList.drop off = r.print ++ rest) :
+    propsGetNext s off = r.entity off ∧
+      slice s (r.vstart off) (r.vstart off + r.value.length) = r.value ∧
+      entView .properties s (r.entity off) = r.view := by
+  refine ⟨C02P.props_entity_rec s off r rest hg hlic h, ?_, C02P.props_view_rec s off r rest hg h⟩
+  have h1 : C02P.At s off (C02P.printCLines r.comment ++ (r.cgap ++ (r.key.print ++ (r.value ++ (r.gap ++ rest))))) := by
+    simpa [C02P.At, C02P.PRecord.print] using h
+  exact (h1.app.app.app).slice
+
+/-- the value of a multi-line comment block: every line loses exactly its marker -/
+theorem comment_block_val (ls : List C02P.CLine) (h : ∀ l ∈ ls, C02P.isMark l.1 = true ∧ C02P.CLine.NoBreak l) :
+    commentVal (.offset Gen.Tables.offsetCommentDefault) (C02P.printCLines ls) = C02P.cvalLines ls :=
+  C02P.offsetVal_lines ls h
+
+-- non-vacuity: `# a⏎! b⏎k : x\⏎  yA⏎⏎`
+example : (∀ b ∈ C02P.propsDemo, b.Good') ∧ ∀ r, C02P.propsDemo.head? = some (.record r) → r.NoLicense 0 :=
+  ⟨C02P.propsDemo_good, C02P.propsDemo_lic⟩
+example : C02P.printPropsB C02P.propsDemo =
+    [35, 32, 97, 10, 33, 32, 98, 10, 107, 32, 58, 32, 120, 92, 10, 32, 32, 121, 92, 117, 48, 48, 52, 49, 10, 10] := by decide
+example : C02P.propsExpEntries C02P.propsDemo =
+    [{ kind := .entity, full := 0, s := 8, e := 24, ks := 8, ke := 9, vs := 12, ve := 24, pc := some (0, 7) },
+     { kind := .whitespace, full := 24, s := 24, e := 26, ks := 24, ke := 26, vs := 24, ve := 26 }] := by decide
+example : (C02P.propsExpViews C02P.propsDemo).map (fun v => v.map (fun x => (x.key, x.raw, x.comment))) =
+    [some ([107], [120, 92, 10, 32, 32, 121, 92, 117, 48, 48, 52, 49], some [32, 97, 10, 32, 98])] := by decide
+example : propsUnescapeSpec [120, 92, 10, 32, 32, 121, 92, 117, 48, 48, 52, 49] = [120, 121, 65] :=
+  Option.some.inj ((props_unescape_is_spec _).symm.trans (by decide))
+-- NEGATION WITNESSES (what the code does at the excluded points):
+-- `val_head`: a value starting with a blank — the blank belongs to the separator ("a= b⏎": value span 3..4)
+example : (propsGetNext #[97, 61, 32, 98, 10] 0).vs = 3 := by decide
+-- a key ending in a blank: the blank belongs to the separator ("a =c⏎": key span 0..1); a blank INSIDE a key is kept by
+-- the code ("a b=c⏎": key span 0..3) — the hypothesis on `kt` is stronger than necessary there
+example : (propsGetNext #[97, 32, 61, 99, 10] 0).ke = 1 ∧ (propsGetNext #[97, 32, 98, 61, 99, 10] 0).ke = 3 := by decide
+-- parity of the final backslashes: an EVEN number does not continue ("a=b\\⏎c=d⏎": entity ends at 5), an odd one does
+example : (propsGetNext #[97, 61, 98, 92, 92, 10, 99, 61, 100, 10] 0).e = 5 ∧ (propsGetNext #[97, 61, 98, 92, 10, 99, 61, 100, 10] 0).e = 8 := by decide
+-- `val_last`, the License rule, a line boundary inside a comment, a second newline before the key: see sections (3), (4), (9)
+-- a free comment needs TWO newlines after it: with one it is attached ("# a⏎b=c⏎": pre-comment 0..3)
+example : (propsGetNext #[35, 32, 97, 10, 98, 61, 99, 10] 0).pc = some (0, 3) := by decide
+
+/-! ### (14) garbage locality, every regex format, with comments — also comments that contain a complete record (round 4)
+
+`Parser.getJunk` ends the junk at the EARLIEST position where ANY of its expressions matches (`C02P.getJunk_at`: if none of
+the expressions matches strictly inside `(off, e)` and one matches at `e` — or `e` is the end of the text and none matches
+there — the junk entry is `off … e`; matches of the other expressions further on are irrelevant).  The documents below are
+lists of blocks, each optionally preceded by ONE garbage line (with the white-space after it), optionally ending in a garbage
+line.  Block texts are arbitrary inside their class; in particular a comment may read `# key=value`, `; key=value`,
+`<!-- <!ENTITY old "v"> -->`, `#| msgid "old"`, `# #define OLD v`: the key regex then matches INSIDE the comment, and the
+junk in front of the comment still ends exactly at the comment start.  In every theorem: the walk terminates; the entries
+are exactly the blocks' entries plus ONE junk entry per garbage line; every record is recovered unchanged (key, raw value,
+value, attached comment); the junk texts are exactly the garbage lines with the white-space after them. -/
+
+/-- `getJunk` in general -/
+theorem getJunk_earliest (s : Array Nat) (off e : Nat) (exps : List Re) (hoe : off < e)
+    (hno : ∀ r ∈ exps, ∀ q, off < q → q < e → matchAt s r q = none)
+    (hend : (∃ r ∈ exps, (matchAt s r e).isSome) ∨ (e = s.size ∧ ∀ r ∈ exps, matchAt s r e = none)) (hes : e ≤ s.size) :
+    getJunk s off exps = { kind := .junk, full := off, s := off, e := e } :=
+  C02P.getJunk_at s off e exps hoe hno hend hes
+
+/-- properties (blocks of section 13; garbage line: non-empty, no `= : # !` and newline, not starting with white-space;
+    followed by a newline and any white-space) -/
+theorem garbage_local_properties (xs : List C02P.PGBlock) (tail : Option (List Nat × List Nat)) (hg : ∀ x ∈ xs, x.Good')
+    (htail : ∀ g gap, tail = some (g, gap) → C02P.PGarbage g gap)
+    (hlic : ∀ x r, xs.head? = some x → x.junk = none → x.b = .record r → r.NoLicense 0) :
+    walk .properties (C02P.printPropsG xs tail).toArray = .done (C02P.propsGEntries xs tail) ∧
+      entitiesOf .properties (C02P.printPropsG xs tail).toArray (C02P.propsGEntries xs tail) = C02P.propsGViews xs ∧
+      junkOf (C02P.printPropsG xs tail).toArray (C02P.propsGEntries xs tail) = C02P.propsGJunk xs tail :=
+  C02P.walk_props_garbage xs tail hg htail hlic
+
+-- non-vacuity: `a=b⏎garbage⏎#x=y⏎c=d⏎junk⏎` — the comment `#x=y` reads like a record
+example : C02P.printPropsG C02P.propsGDemo C02P.propsGTail =
+    [97, 61, 98, 10, 103, 97, 114, 98, 97, 103, 101, 10, 35, 120, 61, 121, 10, 99, 61, 100, 10, 106, 117, 110, 107, 10] := by decide
+example : C02P.propsGEntries C02P.propsGDemo C02P.propsGTail =
+    [{ kind := .entity, full := 0, s := 0, e := 3, ks := 0, ke := 1, vs := 2, ve := 3 },
+     { kind := .whitespace, full := 3, s := 3, e := 4, ks := 3, ke := 4, vs := 3, ve := 4 },
+     { kind := .junk, full := 4, s := 4, e := 12 },
+     { kind := .entity, full := 12, s := 17, e := 20, ks := 17, ke := 18, vs := 19, ve := 20, pc := some (12, 16) },
+     { kind := .whitespace, full := 20, s := 20, e := 21, ks := 20, ke := 21, vs := 20, ve := 21 },
+     { kind := .junk, full := 21, s := 21, e := 26 }] := by decide
+example : C02P.propsGJunk C02P.propsGDemo C02P.propsGTail = [[103, 97, 114, 98, 97, 103, 101, 10], [106, 117, 110, 107, 10]] := by decide
+example : (∀ x ∈ C02P.propsGDemo, x.Good') ∧ (∀ g gap, C02P.propsGTail = some (g, gap) → C02P.PGarbage g gap) :=
+  ⟨C02P.propsGDemo_good, C02P.propsGTail_ok⟩
+-- the key regex DOES match inside that comment (at `x`, offset 13); the junk nevertheless ends at the `#` (offset 12)
+example : (matchAt #[97, 61, 98, 10, 103, 97, 114, 98, 97, 103, 101, 10, 35, 120, 61, 121, 10, 99, 61, 100, 10] PropertiesParser_reKey 13).isSome = true ∧
+    propsGetNext #[97, 61, 98, 10, 103, 97, 114, 98, 97, 103, 101, 10, 35, 120, 61, 121, 10, 99, 61, 100, 10] 4 = { kind := .junk, full := 4, s := 4, e := 12 } := by decide
+
+/-! ### (15) ini: whole files -/
+
+/-- ini, a whole file: ANY list of blocks, each optionally preceded by a garbage line (non-empty, no `=`, `[`, newline; not
+    starting with white-space, `;` or `#`; followed by newlines only), each block either
+    * `[name]` (no `]`, `=`, newline in the name), optionally with comment lines directly before it — they are a stand-alone
+      comment entry followed by a one-newline white-space entry;
+    * a record `key=value` (key non-empty, no `=`/newline, not starting with `[ ; #` or white-space; value without newline,
+      blanks kept), optionally with an attached comment block (`;` / `#` lines, then ONE newline and possibly indentation);
+    * a free comment block followed by white-space with at least two newlines;
+    every block ends with white-space that starts and ends with a newline (the next block starts a line — `^` in the
+    comment regex).  The License rule (offset < 2) must not fire on an attached comment of the first block.  Then
+    `IniParser.walk` yields exactly the entries (`C02P.iniSpec.gentries`): section / entity / comment / white-space / junk;
+    views: key, raw value = value, comment lines without their markers; junk = exactly the garbage lines. -/
+theorem roundtrip_ini_full_partial (xs : List (C02P.GB C02P.IBlock)) (tail : Option (List Nat × List Nat))
+    (hg : ∀ x ∈ xs, x.b.Good' ∧ ∀ g gap, x.junk = some (g, gap) → C02P.IGarbage g gap)
+    (htail : ∀ g gap, tail = some (g, gap) → C02P.IGarbage g gap)
+    (hlic : ∀ x, xs.head? = some x → x.junk = none → x.b.NoLicense 0) :
+    walk .ini (C02P.iniSpec.gprint xs tail).toArray = .done (C02P.iniSpec.gentries xs tail) ∧
+      entitiesOf .ini (C02P.iniSpec.gprint xs tail).toArray (C02P.iniSpec.gentries xs tail) = C02P.iniSpec.gviews xs ∧
+      junkOf (C02P.iniSpec.gprint xs tail).toArray (C02P.iniSpec.gentries xs tail) = C02P.gbJunk xs tail :=
+  C02P.walk_ini_doc xs tail hg htail hlic
+
+-- non-vacuity: `; c⏎[S]⏎a=b⏎oops⏎; k=v⏎x=y⏎` (comment before the section; garbage in front of the comment `; k=v`)
+example : C02P.iniSpec.gprint C02P.iniDemo none =
+    [59, 32, 99, 10, 91, 83, 93, 10, 97, 61, 98, 10, 111, 111, 112, 115, 10, 59, 32, 107, 61, 118, 10, 120, 61, 121, 10] := by decide
+example : C02P.iniSpec.gentries C02P.iniDemo none =
+    [{ kind := .comment, full := 0, s := 0, e := 3 },
+     { kind := .whitespace, full := 3, s := 3, e := 4, ks := 3, ke := 4, vs := 3, ve := 4 },
+     { kind := .section, full := 4, s := 4, e := 7, ks := 5, ke := 6, vs := 5, ve := 6 },
+     { kind := .whitespace, full := 7, s := 7, e := 8, ks := 7, ke := 8, vs := 7, ve := 8 },
+     { kind := .entity, full := 8, s := 8, e := 11, ks := 8, ke := 9, vs := 10, ve := 11 },
+     { kind := .whitespace, full := 11, s := 11, e := 12, ks := 11, ke := 12, vs := 11, ve := 12 },
+     { kind := .junk, full := 12, s := 12, e := 17 },
+     { kind := .entity, full := 17, s := 23, e := 26, ks := 23, ke := 24, vs := 25, ve := 26, pc := some (17, 22) },
+     { kind := .whitespace, full := 26, s := 26, e := 27, ks := 26, ke := 27, vs := 26, ve := 27 }] := by decide
+example : (∀ x ∈ C02P.iniDemo, x.b.Good' ∧ ∀ g gap, x.junk = some (g, gap) → C02P.IGarbage g gap) := C02P.iniDemo_good
+-- NEGATION WITNESSES (what the code does at the excluded points):
+-- an INDENTED comment is not a comment (`^`): "a=b⏎  ; c⏎x=y⏎" — after the white-space entry, "; c" is junk
+example : (iniGetNext #[97, 61, 98, 10, 32, 32, 59, 32, 99, 10, 120, 61, 121, 10] 6).kind = .junk := by decide
+-- white-space (not only newlines) after a garbage line belongs to the next record's KEY: "oops⏎  x=y⏎" — junk ends at 5,
+-- the entity's key span is 5..8 ("  x")
+example : iniGetNext #[111, 111, 112, 115, 10, 32, 32, 120, 61, 121, 10] 0 = { kind := .junk, full := 0, s := 0, e := 5 } ∧
+    (iniGetNext #[111, 111, 112, 115, 10, 32, 32, 120, 61, 121, 10] 5).kind = .whitespace := by decide
+
+/-! ### (16) PO: garbage lines -/
+
+/-- PO (blocks of section 12; garbage line: non-empty, without `m`, `#` and newline, not starting with white-space or a
+    quote; non-empty white-space after it) -/
+theorem garbage_local_po (xs : List (C02P.GB C02P.PoBlock)) (tail : Option (List Nat × List Nat))
+    (hg : ∀ x ∈ xs, x.b.Good' ∧ ∀ g gap, x.junk = some (g, gap) → C02P.PoGarbage g gap)
+    (htail : ∀ g gap, tail = some (g, gap) → C02P.PoGarbage g gap)
+    (hlic : ∀ x r, xs.head? = some x → x.junk = none → x.b = .record r → r.NoLicense 0) :
+    walk .po (C02P.poSpec.gprint xs tail).toArray = .done (C02P.poSpec.gentries xs tail) ∧
+      entitiesOf .po (C02P.poSpec.gprint xs tail).toArray (C02P.poSpec.gentries xs tail) = C02P.poSpec.gviews xs ∧
+      junkOf (C02P.poSpec.gprint xs tail).toArray (C02P.poSpec.gentries xs tail) = C02P.gbJunk xs tail :=
+  C02P.walk_po_doc xs tail hg htail hlic
+
+-- non-vacuity: `msgid "a"⏎msgstr "b"⏎⏎junk⏎#| msgid "old"⏎msgid "c"⏎msgstr "d"⏎` (garbage in front of a previous-source comment)
+example : C02P.poSpec.gprint C02P.poGDemo none =
+    [109, 115, 103, 105, 100, 32, 34, 97, 34, 10, 109, 115, 103, 115, 116, 114, 32, 34, 98, 34, 10, 10, 106, 117, 110, 107, 10,
+     35, 124, 32, 109, 115, 103, 105, 100, 32, 34, 111, 108, 100, 34, 10, 109, 115, 103, 105, 100, 32, 34, 99, 34, 10,
+     109, 115, 103, 115, 116, 114, 32, 34, 100, 34, 10] := by decide
+example : C02P.poSpec.gentries C02P.poGDemo none =
+    [{ kind := .entity, full := 0, s := 0, e := 20, ks := 0, ke := 9, vs := 10, ve := 20 },
+     { kind := .whitespace, full := 20, s := 20, e := 22, ks := 20, ke := 22, vs := 20, ve := 22 },
+     { kind := .junk, full := 22, s := 22, e := 27 },
+     { kind := .entity, full := 27, s := 42, e := 62, ks := 42, ke := 51, vs := 52, ve := 62, pc := some (27, 42) },
+     { kind := .whitespace, full := 62, s := 62, e := 63, ks := 62, ke := 63, vs := 62, ve := 63 }] := by decide
+example : (∀ x ∈ C02P.poGDemo, x.b.Good' ∧ ∀ g gap, x.junk = some (g, gap) → C02P.PoGarbage g gap) := C02P.poGDemo_good
+-- NEGATION WITNESS: a garbage line that starts with a quote continues the string list before it ("…msgstr "b"⏎"x"⏎": the
+-- entity ends at 24, after the `"x"`)
+example : (poGetNext #[109, 115, 103, 105, 100, 32, 34, 97, 34, 10, 109, 115, 103, 115, 116, 114, 32, 34, 98, 34, 10, 34, 120, 34, 10] 0).e = 24 := by decide
+
+/-! ### (17) DTD: whole files -/
+
+/-- DTD, a whole file, optionally starting with a byte-order mark: ANY list of blocks, each optionally preceded by garbage
+    (non-empty, no `<`, not starting with white-space or a BOM; non-empty white-space after it; NOT in front of a parameter
+    entity), each block either
+    * an entity declaration `<!ENTITY` ws+ name ws+ `"value"` or `'value'` ws* `>` (ASCII name; value without its quote
+      character), optionally with ONE attached comment `<!-- text -->` (text = characters of the parser's `CharMinusDash`,
+      single dashes allowed, no `--`) and white-space with at most one newline between them;
+    * a free comment followed by white-space with at least two newlines;
+    * a parameter entity `<!ENTITY % name SYSTEM "url"> %ref;` + blanks + newline (any white-space between the parts):
+      `Parser.getNext` reports junk there and `DTDParser.getNext` then matches `rePE` (dtd.py lines 110-111);
+    any white-space after every block.  Then `DTDParser.walk` yields exactly the entries (`C02P.dtdSpec.gentriesAt`, offsets
+    shifted by one after a BOM): the entity's value span is the text BETWEEN the quotes (`createEntity` shrinks the span),
+    the parameter entity's value span is the url WITH its quotes and its span includes the reference and the newline; views:
+    key, raw value, value (= raw value when it has no `&`), comment text; junk = exactly the garbage. -/
+theorem roundtrip_dtd_full_partial (bom : Bool) (xs : List (C02P.GB C02P.DBlock)) (tail : Option (List Nat × List Nat))
+    (hg : ∀ x ∈ xs, x.b.Good' ∧ ∀ g gap, x.junk = some (g, gap) → C02P.DGarbage g gap ∧ x.b.JOk)
+    (htail : ∀ g gap, tail = some (g, gap) → C02P.DGarbage g gap)
+    (hlic : ∀ x, xs.head? = some x → x.junk = none → x.b.NoLicense (if bom then 1 else 0))
+    (hne : bom = true → xs ≠ []) :
+    walk .dtd ((if bom then [65279] else []) ++ C02P.dtdSpec.gprint xs tail).toArray =
+        .done (C02P.dtdSpec.gentriesAt (if bom then 1 else 0) xs tail) ∧
+      entitiesOf .dtd ((if bom then [65279] else []) ++ C02P.dtdSpec.gprint xs tail).toArray
+        (C02P.dtdSpec.gentriesAt (if bom then 1 else 0) xs tail) = C02P.dtdSpec.gviews xs ∧
+      junkOf ((if bom then [65279] else []) ++ C02P.dtdSpec.gprint xs tail).toArray
+        (C02P.dtdSpec.gentriesAt (if bom then 1 else 0) xs tail) = C02P.gbJunk xs tail :=
+  C02P.walk_dtd_doc bom xs tail hg htail hlic hne
+
+/-- a parameter entity, at any offset -/
+theorem dtd_parameter_entity (s : Array Nat) (off : Nat) (d : C02P.DPE) (rest : List Nat) (hg : d.Good)
+    (h : s.toList.drop off = d.print ++ rest) : dtdGetNext s off = C02P.dtdPEEntry off d :=
+  C02P.dtd_pe_entry s off d rest hg h
+
+-- non-vacuity: BOM `<!-- c --><!ENTITY a 'b'>⏎junk⏎<!-- <!ENTITY o "v"> -->⏎<!ENTITY k "v">⏎<!ENTITY % n SYSTEM "u"> %n;⏎`
+example : [65279] ++ C02P.dtdSpec.gprint C02P.dtdDemo none =
+    [65279, 60, 33, 45, 45, 32, 99, 32, 45, 45, 62, 60, 33, 69, 78, 84, 73, 84, 89, 32, 97, 32, 39, 98, 39, 62, 10, 106, 117, 110, 107, 10,
+     60, 33, 45, 45, 32, 60, 33, 69, 78, 84, 73, 84, 89, 32, 111, 32, 34, 118, 34, 62, 32, 45, 45, 62, 10,
+     60, 33, 69, 78, 84, 73, 84, 89, 32, 107, 32, 34, 118, 34, 62, 10,
+     60, 33, 69, 78, 84, 73, 84, 89, 32, 37, 32, 110, 32, 83, 89, 83, 84, 69, 77, 32, 34, 117, 34, 62, 32, 37, 110, 59, 10] := by decide
+example : C02P.dtdSpec.gentriesAt 1 C02P.dtdDemo none =
+    [{ kind := .entity, full := 1, s := 11, e := 26, ks := 20, ke := 21, vs := 23, ve := 24, pc := some (1, 11) },
+     { kind := .whitespace, full := 26, s := 26, e := 27, ks := 26, ke := 27, vs := 26, ve := 27 },
+     { kind := .junk, full := 27, s := 27, e := 32 },
+     { kind := .entity, full := 32, s := 57, e := 72, ks := 66, ke := 67, vs := 69, ve := 70, pc := some (32, 56) },
+     { kind := .whitespace, full := 72, s := 72, e := 73, ks := 72, ke := 73, vs := 72, ve := 73 },
+     { kind := .entity, full := 73, s := 73, e := 102, ks := 84, ke := 85, vs := 93, ve := 96 }] := by decide
+example : (∀ x ∈ C02P.dtdDemo, x.b.Good' ∧ ∀ g gap, x.junk = some (g, gap) → C02P.DGarbage g gap ∧ x.b.JOk) := C02P.dtdDemo_good
+-- NEGATION WITNESSES (what the code does at the excluded points):
+-- garbage in front of a PARAMETER ENTITY swallows it: neither `reKey` nor `reComment` matches at `<!ENTITY %` (offset 2 of
+-- "x⏎<!ENTITY % n SYSTEM "u"> %n;⏎"), so `getJunk` finds no end there and the junk runs on (to the end of the text, see the
+-- probe of the real code in the evidence notes): the damage is not local, and the theorem excludes this position (`JOk`)
+example : matchAt #[120, 10, 60, 33, 69, 78, 84, 73, 84, 89, 32, 37, 32, 110, 32, 83, 89, 83, 84, 69, 77, 32, 34, 117, 34, 62, 32, 37, 110, 59, 10] DTDParser_reKey 2 = none ∧
+    matchAt #[120, 10, 60, 33, 69, 78, 84, 73, 84, 89, 32, 37, 32, 110, 32, 83, 89, 83, 84, 69, 77, 32, 34, 117, 34, 62, 32, 37, 110, 59, 10] DTDParser_reComment 2 = none ∧
+    (matchAt #[120, 10, 60, 33, 69, 78, 84, 73, 84, 89, 32, 37, 32, 110, 32, 83, 89, 83, 84, 69, 77, 32, 34, 117, 34, 62, 32, 37, 110, 59, 10] DTDParser_rePE 2).isSome = true := by
+  decide
+-- `--` inside a comment: the comment regex does not match ("<!-- a--b -->")
+example : matchAt #[60, 33, 45, 45, 32, 97, 45, 45, 98, 32, 45, 45, 62, 10] DTDParser_reComment 0 = none := by decide
+
+/-! ### (18) .inc: whole files, the `#filter emptyLines` state -/
+
+/-- .inc, a whole file: ANY list of blocks, each optionally preceded by a garbage line (non-empty, no `#`, no newline;
+    newlines after it), each block either
+    * `#define KEY[ value]` (ASCII `\w` key, one blank), optionally with an attached comment block of `# text` lines;
+    * a free comment block followed by at least two newlines;
+    * an instruction `#word␣…arg` (word not starting with `d`) — `#filter emptyLines` switches `ctx.filter_empty_lines` on,
+      `#unfilter emptyLines` off;
+    every block is followed by newlines: ONE newline, or several if `filter_empty_lines` is on at that point
+    (`C02P.NGoodAll` follows the state through the document, starting with `False`).  Then `DefinesParser.walk` yields
+    exactly the entries (`C02P.incSpec.gentries`): instruction / entity / comment / white-space / junk; an empty value has
+    the span `(-1, -1)`; views: key, raw value, comment = the lines without `# `; junk = exactly the garbage lines. -/
+theorem roundtrip_inc_full_partial (xs : List (C02P.GB C02P.NBlock)) (tail : Option (List Nat × List Nat))
+    (hg : C02P.NGoodAll false xs) (htail : ∀ g gap, tail = some (g, gap) → C02P.NGarbage g gap) :
+    walk .inc (C02P.incSpec.gprint xs tail).toArray = .done (C02P.incSpec.gentries xs tail) ∧
+      entitiesOf .inc (C02P.incSpec.gprint xs tail).toArray (C02P.incSpec.gentries xs tail) = C02P.incSpec.gviews xs ∧
+      junkOf (C02P.incSpec.gprint xs tail).toArray (C02P.incSpec.gentries xs tail) = C02P.gbJunk xs tail :=
+  C02P.walk_inc_doc xs tail hg htail
+
+-- non-vacuity: `#filter emptyLines⏎⏎# c⏎#define A b⏎junk⏎# #define O v⏎#define B⏎#unfilter emptyLines⏎`
+example : C02P.incSpec.gprint C02P.incDemo none =
+    [35, 102, 105, 108, 116, 101, 114, 32, 101, 109, 112, 116, 121, 76, 105, 110, 101, 115, 10, 10, 35, 32, 99, 10,
+     35, 100, 101, 102, 105, 110, 101, 32, 65, 32, 98, 10, 106, 117, 110, 107, 10,
+     35, 32, 35, 100, 101, 102, 105, 110, 101, 32, 79, 32, 118, 10, 35, 100, 101, 102, 105, 110, 101, 32, 66, 10,
+     35, 117, 110, 102, 105, 108, 116, 101, 114, 32, 101, 109, 112, 116, 121, 76, 105, 110, 101, 115, 10] := by decide
+example : C02P.incSpec.gentries C02P.incDemo none =
+    [{ kind := .instruction, full := 0, s := 0, e := 18, ks := 1, ke := 18, vs := 1, ve := 18 },
+     { kind := .whitespace, full := 18, s := 18, e := 20, ks := 18, ke := 20, vs := 18, ve := 20 },
+     { kind := .entity, full := 20, s := 24, e := 35, ks := 32, ke := 33, vs := 34, ve := 35, pc := some (20, 23) },
+     { kind := .whitespace, full := 35, s := 35, e := 36, ks := 35, ke := 36, vs := 35, ve := 36 },
+     { kind := .junk, full := 36, s := 36, e := 41 },
+     { kind := .entity, full := 41, s := 55, e := 64, ks := 63, ke := 64, vs := -1, ve := -1, pc := some (41, 54) },
+     { kind := .whitespace, full := 64, s := 64, e := 65, ks := 64, ke := 65, vs := 64, ve := 65 },
+     { kind := .instruction, full := 65, s := 65, e := 85, ks := 66, ke := 85, vs := 66, ve := 85 },
+     { kind := .whitespace, full := 85, s := 85, e := 86, ks := 85, ke := 86, vs := 85, ve := 86 }] := by decide
+example : C02P.NGoodAll false C02P.incDemo := C02P.incDemo_good
+-- NEGATION WITNESSES: blank lines are white-space only while `filter_empty_lines` is on: the same two newlines (offset 18 of
+-- "#filter emptyLines⏎⏎") are a white-space entry with the flag on and JUNK with the flag off
+example : (definesGetNext #[35, 102, 105, 108, 116, 101, 114, 32, 101, 109, 112, 116, 121, 76, 105, 110, 101, 115, 10, 10] true 18).1.kind = .whitespace ∧
+    (definesGetNext #[35, 102, 105, 108, 116, 101, 114, 32, 101, 109, 112, 116, 121, 76, 105, 110, 101, 115, 10, 10] false 18).1.kind = .junk := by decide
+-- the flag is what the instruction sets (`C02P.NBlock.tr`)
+example : C02P.NBlock.tr false (.instr [102, 105, 108, 116, 101, 114] 1 [101, 109, 112, 116, 121, 76, 105, 110, 101, 115] [10]) = true ∧
+    C02P.NBlock.tr true (.instr [117, 110, 102, 105, 108, 116, 101, 114] 1 [101, 109, 112, 116, 121, 76, 105, 110, 101, 115] [10]) = false := by decide
 
 end C02
